@@ -20,7 +20,8 @@
 //      -> "ovl both B stateconc S maxconc M nstates K"      (B=1: both were inside the body at the same time)
 //   feplan <cat> <n> <N> <maxThreads> <wait> <exec>     cat ra|bi|fw
 //      -> "feplan n  cnt who ... | nsched S nwaits W"    per element: call count, runner (-1 caller pre-wait, -2 caller post-wait, j closure)
-//   pi <N> <cost> <shape>       shape = arities per level separated by ',' e.g. 3,2,2 ; leaves below the last level
+//   pi <N> <cost> <shape>       shape = arities per level separated by ',' e.g. 3,2,2 ; leaves below the last level;
+//                               or L<d> / R<d> = left / right comb of depth d (arity 2)
 //      -> "pi nodes M  (kind parentIdx childPos arity cnt dec depth pdepth lastok) ..."   nodes in preorder
 #include <algorithm>
 #include <atomic>
@@ -436,6 +437,22 @@ static int buildTree(const std::vector<int>& shape, size_t level, int parent, in
   return idx;
 }
 
+// left comb: the first (scheduled) functor recurses, the last is a leaf; right comb: the last (direct) one recurses
+static int buildComb(int depth, bool left, int parent, int pos) {
+  int idx = static_cast<int>(g_nodes.size());
+  g_nodes.emplace_back(new Node());
+  g_nodes[idx]->parent = parent;
+  g_nodes[idx]->pos = pos;
+  if (depth > 0) {
+    g_nodes[idx]->arity = 2;
+    int k0 = left ? buildComb(depth - 1, left, idx, 0) : buildComb(0, left, idx, 0);
+    int k1 = left ? buildComb(0, left, idx, 1) : buildComb(depth - 1, left, idx, 1);
+    g_nodes[idx]->kids.push_back(k0);
+    g_nodes[idx]->kids.push_back(k1);
+  }
+  return idx;
+}
+
 static void runPi(std::istringstream& in) {
   int N;
   std::string cost, shapeS;
@@ -452,7 +469,11 @@ static void runPi(std::istringstream& in) {
     }
   }
   g_nodes.clear();
-  buildTree(shape, 0, -1, 0);
+  if (shapeS[0] == 'L' || shapeS[0] == 'R') {
+    buildComb(atoi(shapeS.c_str() + 1), shapeS[0] == 'L', -1, 0);
+  } else {
+    buildTree(shape, 0, -1, 0);
+  }
   dispenso::ThreadPool& pool = poolFor(N);
   {
     dispenso::ConcurrentTaskSet tasks(pool, cost == "light" ? dispenso::TaskCost::kLightweight : dispenso::TaskCost::kHeavy);
